@@ -12,9 +12,9 @@ PARTIAL = [
     "circuit (sentinel INT_MIN/INT_MAX and |v| <= 2^30)",
     "global placement completes without raising: NOT proved; monitored (exceptions, assertion failures, ASan/UBSan reports "
     "in a forked child per circuit)",
-    "the assignment of every positive-demand cell to exactly one bin whose limits are grid limits (hypotheses of "
-    "ub_centre_inside) is the C16 invariant (HierarchicalDensityPlacement::check under assertions); here it is exercised, "
-    "not proved",
+    "the assignment of every positive-demand cell to exactly one bin whose limits are grid limits, and bins holding only "
+    "positive-demand cells (hypotheses of ub_centre_inside / ub_every_cell_inside) is the C16 invariant "
+    "(HierarchicalDensityPlacement::check under assertions); here it is exercised, not proved",
     "blendPlacement/exportPlacement are file-local/private: their model is tied to the code only end to end, through the "
     "exposed integer placements (driver op `blend`, bound proved as export_blend_observable) — not by a direct differential "
     "test on floats",
@@ -26,7 +26,12 @@ ASSUMPTIONS = [
     "std::sort on pair<float,int> modelled by List.mergeSort with the lexicographic order (keys are pairwise distinct, so the "
     "sorted list is unique); NaN targets excluded (finite CG iterates are monitored, not proved)",
     "numerical knobs of the generator: CG tolerance in [1e-6,1], approximation and cutoff distances in [0.1,100], "
-    "penalty initial value in [1e-3,10], side margin in [0,0.9], every other knob over the range accepted by check()",
+    "penalty initial value in [1e-3,10], side margin in [0,0.9] (unchecked by check()), coarsening limit in [1,1000], "
+    "maxNbSteps <= 30 when knobs are randomised (so that penalty <= 10 * 1.99^30 stays far from float overflow; the "
+    "thorough tier also runs the library default of 400 steps with each effort's own knobs), every other knob over the "
+    "whole range accepted by check()",
+    "circuits: vc::genCircuit restricted to rows >= 4 row heights wide; a quarter of them get 1-2 movable cells of zero "
+    "width or zero height (at least one movable cell of positive area remains); coordinates within a few hundred units",
     "C++ int arithmetic modelled as unbounded Int (bin limits, margins)",
 ]
 LEVEL_TEXT = ("Lean 4 theorems over an executable Rat model of spreadCells / spreadCoordX/Y / the density grid built from the clipped "
